@@ -330,6 +330,8 @@ def _pol(spec):
 def _add_att(target: EmailMessage, a: dict, pol, related: bool):
     add = target.add_related if related else target.add_attachment
     kw = {"filename": a["filename"] or None}            # None: no filename parameter is written
+    if a.get("name_style") and a["filename"]:
+        kw["filename"] = _name_placeholder(a)            # swapped for the RFC 2047 spelling in the rendered bytes (render_message)
     if a.get("cid"):
         kw["cid"] = a["cid"]
     if a["disp"] == "inline":
@@ -342,6 +344,37 @@ def _add_att(target: EmailMessage, a: dict, pol, related: bool):
         add(a["data"], maintype=main, subtype=sub, cte=a.get("cte", "base64"), **kw)
     if a["disp"] == "none":                              # what email.mime.message.MIMEMessage writes: no disposition at all
         del target.get_payload()[-1]["Content-Disposition"]
+
+
+def _name_placeholder(a: dict) -> str:
+    return "x2047x" + binascii.hexlify(a["filename"].encode("utf-8"))[:24].decode("ascii") + f"x{len(a['filename'])}x.bin"
+
+
+def _rfc2047_names(raw: bytes, spec: dict, eol: str) -> bytes:
+    """Attachment names in the spelling most mail clients use for them - an RFC 2047 encoded word inside the quoted
+    ``filename`` parameter (or only in the Content-Type ``name`` parameter) - where the stdlib writes RFC 2231
+    (``filename*=utf-8''...``): the stdlib-written placeholder parameter is replaced in the rendered bytes.  A name that
+    needs several encoded words has them separated by a fold inside the quotes."""
+    e = eol.encode("ascii")
+    for a in spec.get("atts", []):
+        st = a.get("name_style")
+        if not st or not a["filename"]:
+            continue
+        ph = _name_placeholder(a).encode("ascii")
+        words = encoded_words(a["filename"], a.get("name_charset", "utf-8"), a.get("name_mode", "B"))
+        value = b'"' + (e + b" ").join(w.encode("ascii") for w in words) + b'"'
+        m = re.search(rb';[ \t]*(?:\r?\n[ \t]+)?filename="?' + re.escape(ph) + rb'"?', raw)
+        assert m, ("placeholder not found", ph)
+        if st == "rfc2047":
+            raw = raw[:m.start()] + b";" + e + b" filename=" + value + raw[m.end():]
+        else:                                            # "rfc2047-name": no filename parameter at all, the name sits in Content-Type
+            raw = raw[:m.start()] + raw[m.end():]
+            start = raw.rfind(e + b"--", 0, m.start())
+            ct = re.compile(rb"(?im)^Content-Type:.*(?:\r?\n[ \t].*)*").search(raw, start)
+            assert ct and ct.start() < m.start() + 400, "Content-Type of the part not found"
+            end = ct.end() - (1 if raw[ct.end() - 1:ct.end()] == b"\r" else 0)
+            raw = raw[:end] + b";" + e + b" name=" + value + raw[end:]
+    return raw
 
 
 def build_message(spec: dict, pol_override=None, with_headers: bool | None = None) -> EmailMessage:
@@ -454,6 +487,8 @@ def render_message(spec: dict) -> bytes:
     pol = _pol(spec)
     m = build_message(spec)
     raw = _flatten(m, pol)
+    if any(a.get("name_style") for a in spec.get("atts", [])):
+        raw = _rfc2047_names(raw, spec, pol.linesep)
     if spec["hdr"]["mode"] == "stdlib":
         return raw
     eol = pol.linesep
@@ -796,6 +831,12 @@ def random_spec(rng, tok, fx: dict, *, allow=None, depth: int = 0) -> dict:
         if k not in MISMATCHED and allow.get("nameless", True) and rng.random() < 0.06:
             a["filename"] = ""                            # no filename / name parameter: the declared type is all a reader has
             feats.append("att:nameless")
+        elif allow.get("name_rfc2047", True) and rng.random() < 0.25:
+            # the name as an RFC 2047 encoded word inside the quoted parameter (Outlook, Gmail, ...), not as RFC 2231
+            a["name_style"] = rng.choice(["rfc2047", "rfc2047", "rfc2047-name"])
+            a["name_charset"] = "iso-8859-1" if encodable(a["filename"], "iso-8859-1") and rng.random() < 0.4 else "utf-8"
+            a["name_mode"] = rng.choice("BQ")
+            feats.append("att:name-" + a["name_style"])
         atts.append(a)
     if fx.get("enc") and depth == 0 and allow.get("encrypted", True) and rng.random() < 0.04 and len(atts) - inline_n < allow.get("max_atts", 4):
         # a password-protected document among the attachments: the attachment iterator reports it (file-encrypted error)
